@@ -552,7 +552,9 @@ Proof.
   - apply filter_subseq.
   - destruct (r =? 0); [apply filter_subseq|].
     destruct (step ll gd budget lk (length seq - r) seq) as [[seq' next] ok'] eqn:E.
-    eapply skipped_chain; [eapply step_skipped; eassumption | apply IH; assumption].
+    destruct (size_cap <? length seq').
+    + cbn [fst]. eapply step_skipped; eassumption.
+    + eapply skipped_chain; [eapply step_skipped; eassumption | apply IH; assumption].
 Qed.
 
 (* ---------------------------------------------------------- scan progress *)
@@ -699,7 +701,7 @@ Proof.
     destruct (step ll gd budget lk (length seq - r) seq) as [[seq' next] ok] eqn:E.
     assert (Hr : 0 < r) by lia.
     pose proof (step_decreases _ _ _ _ _ _ _ _ _ Hr Hle E) as Hd.
-    cbn [strictly_decreasing]. split.
+    cbn [strictly_decreasing]. destruct (size_cap <? length seq'); [split; exact I|]. split.
     + destruct f; cbn [scan_trace]; [exact I|].
       destruct (length seq' - next =? 0); [exact I|].
       destruct (step ll gd budget lk (length seq' - (length seq' - next)) seq') as [[? ?] ?]. exact Hd.
@@ -720,6 +722,7 @@ Proof.
       destruct (step ll gd budget lk (length seq - r) seq) as [[seq' next] ok'] eqn:E.
       assert (Hr : 0 < r) by lia.
       pose proof (step_decreases _ _ _ _ _ _ _ _ _ Hr Hle E) as Hd.
+      destruct (size_cap <? length seq'); [reflexivity|].
       apply IH; lia.
 Qed.
 
@@ -911,7 +914,8 @@ Proof.
   intros ll gd budget lk fuel. induction fuel as [|f IH]; intros r seq ok1 ok2; cbn [scan].
   - reflexivity.
   - destruct (r =? 0); [reflexivity|].
-    destruct (step ll gd budget lk (length seq - r) seq) as [[seq' next] ok']. apply IH.
+    destruct (step ll gd budget lk (length seq - r) seq) as [[seq' next] ok'].
+    destruct (size_cap <? length seq'); [reflexivity | apply IH].
 Qed.
 
 Lemma apply_lookup_fst_indep : forall ll gd budget li seq ok1 ok2,
@@ -1061,9 +1065,4 @@ Proof.
   - rewrite nth_error_app2 by lia. rewrite Hf, Nat.sub_diag. reflexivity.
 Qed.
 
-(* behind a merge the renumbering q -> q - #(removed before q) follows the
-   glyphs: decided for every sequence of up to 9 glyphs, every position of
-   the ligature and every set of removed positions behind it (positions stand
-   for the glyphs; drop_at and del_positions do not look at glyph contents) *)
-Lemma merge_tracks_upto9 : forallb merge_tracks_check (seq 0 10) = true.
-Proof. vm_compute. reflexivity. Qed.
+
